@@ -121,6 +121,56 @@ def run(ctx, rep):
                        key="C05.extremes|%s|%s,%s" % (sym, l.lower(), r.lower()))
     rep.floor("C05.extremes evaluations", n_ext, 6)
 
+    # ---- (b'') comparisons by numeric value across kinds ---------------------------------------------------------------------
+    # `<, <=, >, >=` on every pair of numeric kinds, evaluated on three concrete operand pairs (equal, smaller, larger).  An operator the
+    # impl does not define falls back to the trait's provided method, which is built on partial_cmp: then that is what is evaluated.
+    from absint import Interp
+    ORD = "bytecode::variables::ops::ord::<impl core::cmp::PartialOrd for bytecode::variables::primitive::Primitive>::"
+
+    def numval(kind, v):
+        return {"Int": Int(v, "i32"), "BigInt": Int(v, "i128"), "Byte": Int(v, "u8"), "Float": Flt(float(v))}[kind]
+    truth = {"lt": lambda a, b: a < b, "le": lambda a, b: a <= b, "gt": lambda a, b: a > b, "ge": lambda a, b: a >= b}
+    n_cmp = 0
+    for opn in ("lt", "le", "gt", "ge"):
+        direct = F.fn(ORD + opn)
+        pc = F.fn(ORD + "partial_cmp")
+        if direct is None and pc is None:
+            raise AnchorMissing("PartialOrd for Primitive")
+        bad, und = [], []
+        for l in NUMERIC:
+            for r in NUMERIC:
+                for a, b in ((5, 5), (3, 5), (7, 5)):
+                    it = Interp(F, models=tables.MODELS, max_depth=8, max_paths=256)
+                    outs = it.run(direct if direct is not None else pc, [T.prim_value(l, "l", numval(l, a)), T.prim_value(r, "r", numval(r, b))])
+                    n_cmp += 1
+                    got = set()
+                    for o in outs:
+                        v = o.value
+                        if o.kind != "return":
+                            got.add(o.kind)
+                        elif direct is not None:
+                            got.add(bool(v.v) if isinstance(v, Int) else "?")
+                        else:
+                            # Option<Ordering> -> the provided method's answer
+                            name = None
+                            if isinstance(v, tables.Variant) and v.name == "Some" and v.fields:
+                                inner = v.fields[0]
+                                name = getattr(inner, "name", None)
+                                if name is None and isinstance(inner, Int):
+                                    name = {-1: "Less", 0: "Equal", 1: "Greater", 255: "Less"}.get(inner.v)
+                            if name is None:
+                                got.add("?")
+                            else:
+                                got.add({"lt": name == "Less", "le": name in ("Less", "Equal"), "gt": name == "Greater", "ge": name in ("Greater", "Equal")}[opn])
+                    want = truth[opn](a, b)
+                    if got == {want}:
+                        continue
+                    (und if ("?" in got or not got or len(got) > 1) else bad).append("%s(%d) %s %s(%d) -> %s, expected %s" % (l.lower(), a, opn, r.lower(), b, sorted(map(str, got)), want))
+        rep.ob("C05.compare-values", "`%s` compares numbers of any two kinds by value%s" % (opn, "" if direct is not None else " (provided method over partial_cmp)"),
+               "violated" if bad else ("undecided" if und else "ok"), "; ".join((bad or und)[:4]), (direct or pc).span, fn=(direct or pc).path,
+               key="C05.compare-values|%s" % opn)
+    rep.floor("C05.compare-values evaluations", n_cmp, 150)
+
     # ---- (c) -------------------------------------------------------------------------------------------
     ofns = operator_fns(F)
     rep.floor("C05.operator impl functions", len(ofns), 20)
@@ -171,7 +221,12 @@ def run(ctx, rep):
 
     # ---- operand order -----------------------------------------------------------------------------------
     from props import _operands
-    nonc = [T.rt_fn(o) for o in ("Sub", "Div", "Rem", "Shl", "Shr", "lt", "le", "gt", "ge")]
+    nonc = [T.rt_fn(o) for o in ("Sub", "Div", "Rem", "Shl", "Shr")]
+    for o in ("lt", "le", "gt", "ge"):
+        try:
+            nonc.append(T.rt_fn(o))
+        except AnchorMissing:
+            pass        # not written out in the impl: the provided method over partial_cmp is judged by C05.compare-values
     n_sites = _operands.run(F, rep, "C05.operand-order", nonc, "interpreter")
     rep.floor("C05.operand-order sites", n_sites, 60)
 
